@@ -196,7 +196,7 @@ def build_driver(src, flavour="ndebug", extra_flags=(), extra_deps=(), cxx=None)
     cxx = cxx or CXX
     srcp = src if os.path.isabs(src) else os.path.join(VERIF, "drivers", src)
     flags = FLAVOURS[flavour] + list(extra_flags)
-    deps = [srcp, os.path.join(VERIF, "drivers", "common.hpp")] + [os.path.join(VERIF, "drivers", d) if not os.path.isabs(d) else d for d in extra_deps]
+    deps = [srcp, os.path.join(VERIF, "drivers", "common.hpp"), os.path.join(VERIF, "drivers", "show.hpp")] + [os.path.join(VERIF, "drivers", d) if not os.path.isabs(d) else d for d in extra_deps]
     key = hashlib.sha256((sha_files(deps) + " ".join(flags) + cxx + repo_tree_hash()).encode()).hexdigest()[:20]
     bindir = os.path.join(BUILD, "bin"); os.makedirs(bindir, exist_ok=True)
     ftag = hashlib.sha256(" ".join(extra_flags).encode()).hexdigest()[:6] if extra_flags else "0"
@@ -210,14 +210,15 @@ def build_driver(src, flavour="ndebug", extra_flags=(), extra_deps=(), cxx=None)
         cmd = [cxx] + flags + ["-I" + os.path.join(REPO, "include"), "-I" + os.path.join(VERIF, "drivers"), srcp, "-o", out + ".tmp"]
         r = subprocess.run(cmd, stdout=subprocess.PIPE, stderr=subprocess.STDOUT, text=True, timeout=3000)
         if r.returncode != 0:
-            return None, " ".join(cmd) + "\n" + r.stdout[-6000:]
+            return None, " ".join(cmd) + "\n" + r.stdout[-200000:]
         os.replace(out + ".tmp", out)
-    # keep the cache small: drop older binaries of the same driver/flavour
+    # keep the cache small: keep the 3 most recent binaries of the same driver/flavour/flags
     prefix = stem
-    for f in os.listdir(bindir):
-        if f.startswith(prefix) and os.path.join(bindir, f) != out and not f.endswith(".tmp"):
-            try: os.remove(os.path.join(bindir, f))
-            except OSError: pass
+    olds = sorted((os.path.getmtime(os.path.join(bindir, f)), f) for f in os.listdir(bindir)
+                  if f.startswith(prefix) and not f.endswith(".tmp"))
+    for _, f in olds[:-3]:
+        try: os.remove(os.path.join(bindir, f))
+        except OSError: pass
     return out, "built"
 
 
